@@ -125,7 +125,19 @@ func genNames(r *rand.Rand) []string {
 	return out
 }
 
+// set by genKv for the duration of one case: prefer bodies with a string property s (the keys of map function 4)
+var stringBodies = false
+var sBodies = []string{`{"s":"apple"}`, `{"s":"Banana","a":2}`, `{"s":"banana"}`, `{"s":"Apple1"}`, `{"s":"cherry","a":1}`, `{"s":"Zebra"}`}
+
 func genKOp(r *rand.Rand) *KOp {
+	op := genKOp0(r)
+	if stringBodies && op.Val != nil && (op.Kind == "Set" || op.Kind == "Add" || op.Kind == "WriteCas" || op.Kind == "SetWithMeta") && !op.Append && r.Intn(2) == 0 {
+		op.Val = sp(pick(r, sBodies))
+	}
+	return op
+}
+
+func genKOp0(r *rand.Rand) *KOp {
 	type gen struct {
 		w int
 		f func() *KOp
@@ -332,12 +344,22 @@ func genKv(r *rand.Rand, tier string) kvInput {
 			viewColl = "s1.c1"
 		}
 		perm := r.Perm(numMaps)
+		if r.Intn(2) == 0 {
+			// string keys: their order is a matter of Unicode collation, not of bytes
+			stringBodies = true
+			perm[0] = pick(r, []int{4, 9, 4})
+		}
 		in.Ops = append(in.Ops, Step{Kind: "putddoc", Coll: viewColl, Handle: 0, DDoc: "dd",
 			Views: []ViewDef{{Name: "v0", Map: perm[0]}, {Name: "v1", Map: perm[1]}, {Name: "v2", Map: perm[2]}}, Clock: next()})
 	}
+	defer func() { stringBodies = false }()
 	for i := 0; i < n; i++ {
 		if viewy && r.Intn(4) == 0 {
-			in.Ops = append(in.Ops, Step{Kind: "view", Coll: viewColl, Handle: r.Intn(in.Handles), DDoc: "dd", View: fmt.Sprintf("v%d", r.Intn(3)), VP: genViewParams(r), Clock: next()})
+			vn := r.Intn(3)
+			if stringBodies && r.Intn(2) == 0 {
+				vn = 0
+			}
+			in.Ops = append(in.Ops, Step{Kind: "view", Coll: viewColl, Handle: r.Intn(in.Handles), DDoc: "dd", View: fmt.Sprintf("v%d", vn), VP: genViewParams(r), Clock: next()})
 			continue
 		}
 		if i == motifAt {
@@ -436,6 +458,7 @@ const (
 	motifWithMetaView
 	motifPurgeIndex
 	motifWindow
+	motifPreserve
 	numMotifs
 )
 
@@ -695,6 +718,39 @@ func genMotif(r *rand.Rand, m int, in *kvInput, exists map[string]bool, hot []st
 				kvn(&KOp{Kind: "SubdocInsert", Path: pick(r, subdocPaths), CasMode: "zero", Val: sp(pick(r, subdocVals[:3]))}, nested)
 			}
 		}
+		kv(read())
+	case motifPreserve:
+		// an expiry that writes with PreserveExpiry must keep, through every entry point that takes the option
+		kv(&KOp{Kind: pick(r, []string{"Set", "Add"}), Exp: pick(r, farExps), Val: sp(pick(r, jsonBodies))})
+		for j := 0; j < 2+r.Intn(3); j++ {
+			switch r.Intn(6) {
+			case 0:
+				kv(&KOp{Kind: "Set", Preserve: true, Val: sp(pick(r, jsonBodies))})
+			case 1:
+				kv(&KOp{Kind: "SetRaw", Preserve: true, Val: sp(pick(r, rawBodies))})
+			case 2:
+				o := &KOp{Kind: "WriteWithXattrs", CasMode: "current", Xs: genXs(r, false), Preserve: true, Macros: genMacros(r)}
+				if r.Intn(2) == 0 {
+					o.Val = sp(pick(r, jsonBodies))
+				}
+				kv(o)
+			case 3:
+				cb := &Callback{Kind: "result", Xs: []XKV{{Name: "_sync", Val: sp(`{"rev":"1-a"}`)}}, Spec: []Macro{{Path: "_sync.cas", Kind: "cas"}}}
+				if r.Intn(2) == 0 {
+					cb.Val = sp(pick(r, jsonBodies))
+				}
+				if r.Intn(3) == 0 {
+					cb.Spec = nil
+				}
+				kv(&KOp{Kind: "WriteUpdateWithXattrs", Cb: cb, Preserve: true, Macros: genMacros(r)})
+			case 4:
+				kv(&KOp{Kind: "Delete"})
+				kv(&KOp{Kind: "WriteResurrectionWithXattrs", Exp: pick(r, farExps), Xs: genXs(r, false), Preserve: r.Intn(2) == 0, Val: sp(pick(r, jsonBodies))})
+			default:
+				kv(&KOp{Kind: "Touch", Exp: pick(r, farExps)})
+			}
+		}
+		kv(&KOp{Kind: "GetExpiry"})
 		kv(read())
 	case motifPurgeIndex:
 		if cn == "s1.c2" {
